@@ -63,6 +63,7 @@ COQ_TY = {"int": "Z", "bytes": "bytes", "bool": "bool", "boollist": "list bool",
           "optint": "option Z",       # Optional[int]
           "match2": "(list Z * list Z)",            # re.Match of a pattern with two groups that always take part
           "optmatch2": "option (list Z * list Z)",  # what pattern.match() returns
+          "optmatch0": "option unit",               # a match object of which only the truth value is used
           "buffer": "bytes",          # py7zr.io.Buffer: the bytes of its view
           "cipher": "C",              # abstract cipher state (Section variable of the generated file)
           "unit": "unit"}
@@ -83,7 +84,13 @@ def str_lit(v):
 # (each is compared with CPython by tools/harness/prims.py on every run)
 EXTERNAL_CONSTANTS = {
     "posixpath.sep": "/",
+    "os.sep": "/",
 }
+# re.match(<pattern>, s) with a constant pattern and no flags -> PyRe.v matcher returning option unit (only the
+# truth value of the match object is available); compared with CPython's re by tools/harness/prims.py
+RE_MATCH_PATTERNS = {"^[a-zA-Z]:": "re_match_alpha_colon"}
+# functions of other modules with a PyStr.v definition: dotted name -> (Gallina function, argument types, result type)
+EXTERNAL_FUNCTIONS = {"os.path.isabs": ("py_posix_isabs", ["str"], "bool")}
 
 
 def is_seq(t):
@@ -132,11 +139,16 @@ for _q, _args in (("AESCompressor.compress", {"data": "bytes"}), ("AESCompressor
 WAVE2["calculate_crc32"] = dict(file="helpers.py", qual="calculate_crc32", kind="pure", fuel=True,
                                 externs={"zlib.crc32": ("zcrc32", ["bytes", "int"], "int")},
                                 args={"data": "bytes", "value": "int", "blocksize": "int"}, ret="int", out="HelpersCrc")
+# SevenZipFile._sanitize_archive_arcname (self is not used): Err = AbsolutePathError
+WAVE2["SevenZipFile._sanitize_archive_arcname"] = dict(
+    file="py7zr.py", qual="SevenZipFile._sanitize_archive_arcname", kind="method", cls="SevenZipFile",
+    coqname="sanitize_archive_arcname", selfargs={}, self_props={}, args={"arcname": "str"}, ret="str", out="ArcName")
 OUT_FILES = {
     # out -> (source description, Require line[, lines opening a Section, line closing it])
     "HelpersPath": ("py7zr/helpers.py", "From P7 Require Import Prelude PyPrims PyStr Path."),
     "AttrDecoders": ("py7zr/py7zr.py (class ArchiveFile)", "From P7 Require Import Prelude PyPrims PyStr PyStat."),
     "CliVol": ("py7zr/cli.py (class Cli)", "From P7 Require Import Prelude PyPrims PyStr PyRe."),
+    "ArcName": ("py7zr/py7zr.py (SevenZipFile._sanitize_archive_arcname)", "From P7 Require Import Prelude PyPrims PyStr PyRe."),
     "AesBuf": ("py7zr/compressor.py (classes AESCompressor, AESDecompressor)", "From P7 Require Import Prelude PyPrims PyStr.",
                "Section AesBuf.\n(* the cipher object: an abstract state and the two operations the code calls on it *)\n"
                "Variable C : Type.\nVariable enc : C -> bytes -> res (C * bytes).   (* self.cipher.encrypt(data) *)\n"
@@ -349,7 +361,7 @@ class FnTr:
             return "(py_nonempty %s)" % v
         if t == "int":
             return "(negb (%s =? 0))" % v
-        if t == "optmatch2":
+        if t in ("optmatch2", "optmatch0"):
             return "(py_is_some %s)" % v
         self.refuse(e, "truth value of " + t)
 
@@ -405,7 +417,8 @@ class FnTr:
                 t = self.fresh()
                 pfn = "py_shl" if isinstance(op, ast.LShift) else "py_shr"
                 return pre + ["do %s <- %s %s %s;" % (t, pfn, l, r)], t, "int"
-        if isinstance(op, ast.Add) and tl == tr and (tl == "bytes" or tl.startswith("list:") or tl == "boollist"):
+        if isinstance(op, ast.Add) and tl == tr and (tl == "bytes" or tl.startswith("list:") or tl == "boollist"
+                                                     or (tl == "str" and self.module is not None)):
             return pre, "(%s ++ %s)" % (l, r), tl
         if isinstance(op, ast.Mult) and tl == "list:bool" and tr == "int":
             return pre, "(repeat %s (Z.to_nat %s))" % (l.strip("[]"), r), "boollist"
@@ -530,6 +543,17 @@ class FnTr:
         fn = f.id
         if fn in ("hasattr", "getattr") and self.module is not None:
             return self.stat_attr(e)
+        if fn == "isinstance" and self.module is not None and len(args) == 2 and not e.keywords \
+                and isinstance(args[1], ast.Name) and args[1].id == "str" and "str" not in self.local_names():
+            p, v, t = self.expr(args[0])
+            if p or t != "str":
+                self.refuse(e, "isinstance(x, str) on a value of type " + t)
+            return [], "true", "bool"     # the parameter is a str by the signature this function is translated under
+        if fn == "str" and self.module is not None and len(args) == 1 and not e.keywords and "str" not in self.local_names():
+            p, v, t = self.expr(args[0])
+            if t != "str":
+                self.refuse(e, "str() of " + t)
+            return p, v, "str"
         if fn in ("pack", "unpack") and args and isinstance(args[0], ast.Constant):
             fmt = args[0].value
             tag = {"B": "B", "<L": "L", "<Q": "Q"}.get(fmt)
@@ -664,7 +688,41 @@ class FnTr:
                 self.refuse(e, "stat.%s argument type %s" % (f.attr, t))
             t1 = self.fresh()
             return p + ["do %s <- %s %s;" % (t1, fn, v)], t1, rt
+        if d in EXTERNAL_FUNCTIONS and d.split(".")[0] not in self.ty:
+            fn, ats, rt = EXTERNAL_FUNCTIONS[d]
+            if len(args) != len(ats):
+                self.refuse(e, "arity of " + d)
+            pre, vs = [], []
+            for a, at in zip(args, ats):
+                p, v, t = self.expr(a)
+                if t != at:
+                    self.refuse(e, "argument type of %s: %s" % (d, t))
+                pre += p
+                vs.append(v)
+            return pre, "(%s %s)" % (fn, " ".join(vs)), rt
+        if d == "re.match" and "re" not in self.ty and "re" not in self.local_names():
+            if not (len(args) == 2 and isinstance(args[0], ast.Constant) and args[0].value in RE_MATCH_PATTERNS):
+                self.refuse(e, "re.match with a pattern the translator does not know")
+            p, v, t = self.expr(args[1])
+            if t != "str":
+                self.refuse(e, "re.match argument type " + t)
+            return p, "(%s %s)" % (RE_MATCH_PATTERNS[args[0].value], v), "optmatch0"
         p, v, t = self.expr(f.value)
+        if t == "str" and f.attr in ("startswith", "endswith") and len(args) == 1 and isinstance(args[0], ast.Tuple) \
+                and args[0].elts:
+            # s.startswith((a, b, ...)): any of them
+            pre, alts = list(p), []
+            for x in args[0].elts:
+                px, vx, tx = self.expr(x)
+                if px or tx != "str":
+                    self.refuse(e, "%s tuple element" % f.attr)
+                alts.append("(py_%s %s %s)" % (f.attr, v, vx))
+            return pre, "(" + " || ".join(alts) + ")", "bool"
+        if t == "str" and f.attr == "lstrip" and len(args) == 1:
+            pa, a, ta = self.expr(args[0])
+            if ta != "str":
+                self.refuse(e, "lstrip argument type " + ta)
+            return p + pa, "(py_lstrip %s %s)" % (v, a), "str"
         if t == "match2" and f.attr == "group" and len(args) == 1 and self.const_int(args[0]) in (1, 2):
             return p, "(%s %s)" % ("fst" if self.const_int(args[0]) == 1 else "snd", v), "str"
         if t == "str" and f.attr in ("startswith", "endswith") and len(args) == 1:
@@ -964,6 +1022,14 @@ class FnTr:
             for kx, vx in ty_a.items():
                 self.ty.setdefault(kx, vx)
             return p + ["if %s then" % c] + ["  " + x for x in a] + ["else"] + b
+        if isinstance(st, ast.Raise) and self.module is not None and not self.loops:
+            # raise E(...) : the function ends with Err (the arguments of the exception are not evaluated here: they must
+            # be effect-free names / constants)
+            x = st.exc
+            if st.cause is not None or not (isinstance(x, ast.Call) and isinstance(x.func, ast.Name)
+                                            and all(isinstance(a, (ast.Name, ast.Constant)) for a in x.args) and not x.keywords):
+                self.refuse(st, "raise form")
+            return ["Err EOther"]
         if isinstance(st, ast.For):
             return self.forloop(st, cont)
         if isinstance(st, ast.While) and self.module is not None:
